@@ -129,6 +129,8 @@ class World:
         self.xfer_active = False
         self.xfer_src: str | None = None
         self.xfer_dst: str | None = None
+        self.state = None  # a real dvc_data State shared by the local stores, or None (StateNoop)
+        self.fault_kind = 0
         os.makedirs(root, exist_ok=True)
         for s in self.stores:
             os.makedirs(self.store_path(s), exist_ok=True)
@@ -183,15 +185,42 @@ class World:
                 if st != "none":
                     self.place(s, x, st)
 
-    _tick = 1_700_000_000
+    TAMPER_PATTERNS = ["append", "truncate", "same_len", "other_len", "rename"]
 
-    def tamper(self, s: str, x: str):
+    def tamper(self, s: str, x: str, pat: str = "append"):
+        """Make the bytes of object x in store s mismatch its name the way a user could: after
+        chmod u+w.  Every pattern leaves a (inode, mtime, size) token that differs from the old one
+        in a controlled way (same_len: only the mtime, by 1 ms; rename: only the inode)."""
         p = self.obj_path(s, x)
+        st = os.stat(p)
         os.chmod(p, 0o644)
-        with open(p, "ab") as fh:
-            fh.write(b"\n#tampered")
-        World._tick += 7
-        os.utime(p, (World._tick, World._tick))
+        with open(p, "rb") as fh:
+            data = fh.read()
+        if not data and pat in ("truncate", "same_len", "rename"):
+            pat = "append"
+        if pat == "append":
+            new, mt = data + b"\n#tampered", st.st_mtime_ns + 7_000_000_000
+        elif pat == "truncate":
+            new, mt = data[:-1], st.st_mtime_ns + 7_000_000_000
+        elif pat == "other_len":
+            new, mt = b"completely different " + data[::-1], st.st_mtime_ns + 3_000_000_000
+        else:  # same length
+            new = bytes([data[0] ^ 0x55]) + data[1:]
+            # stay within the same wall-clock second when possible: +1 ms
+            mt = st.st_mtime_ns + 1_000_000
+            if mt // 1_000_000_000 != st.st_mtime_ns // 1_000_000_000:
+                mt = st.st_mtime_ns - 1_000_000
+        if pat == "rename":
+            tmp = p + ".edit"
+            with open(tmp, "wb") as fh:
+                fh.write(new)
+            os.utime(tmp, ns=(st.st_mtime_ns, st.st_mtime_ns))  # same mtime, same size, new inode
+            os.replace(tmp, p)
+        else:
+            with open(p, "r+b") as fh:
+                fh.write(new)
+                fh.truncate(len(new))
+            os.utime(p, ns=(mt, mt))
 
     def ext_delete(self, s: str, x: str):
         p = self.obj_path(s, x)
@@ -259,7 +288,31 @@ class World:
         fs = {"dst": FaultFS, "src": JournalFS, "plain": LocalFileSystem}[role]
         fsobj = fs(self, s) if role != "plain" else LocalFileSystem()
         cls = LocalHashFileDB if self.stores[s] == "local" else HashFileDB
+        if self.state is not None and self.stores[s] == "local":
+            config.setdefault("state", self.state)
         return cls(fsobj, self.store_path(s), **config)
+
+    def use_real_state(self, warm: bool):
+        """Share one real hash-state database between the local stores; `warm` records an entry for
+        every object currently in them (so that later tampering meets an entry from before)."""
+        from dvc_data.hashfile.hash import hash_file
+        from dvc_data.hashfile.state import State
+
+        self.state = State(root_dir=self.root, tmp_dir=os.path.join(self.root, "state"))
+        if warm:
+            fs = LocalFileSystem()
+            for s, cls in self.stores.items():
+                if cls != "local":
+                    continue
+                for x in self.uni.oids:
+                    p = self.obj_path(s, x)
+                    if os.path.isfile(p):
+                        hash_file(p, fs, "md5", self.state)
+
+    def close(self):
+        if self.state is not None:
+            self.state.close()
+            self.state = None
 
     # ---- events ----------------------------------------------------------------
     def emit(self, act: dict, last: dict):
@@ -276,6 +329,16 @@ class World:
         if len(parts) == 2 and len(parts[0]) == 2:
             return self.uni.model_id(parts[0] + parts[1])
         return None
+
+
+# the ways an upload can fail: the class of the exception must not matter
+FAULT_KINDS = [
+    lambda p: OSError(errno.EIO, "injected upload failure", p),
+    lambda p: FileNotFoundError(errno.ENOENT, "injected: remote says not found", p),
+    lambda p: PermissionError(errno.EACCES, "injected: permission denied", p),
+    lambda p: TimeoutError("injected: timed out"),
+    lambda p: RuntimeError("injected: backend error"),
+]
 
 
 class FaultFS(LocalFileSystem):
@@ -301,7 +364,7 @@ class FaultFS(LocalFileSystem):
             w.nputs += 1
             if x in w.F:
                 w.emit({"op": "Put", "x": x, "res": "fail"}, {"op": "put"})
-                raise OSError(errno.EIO, "injected upload failure", to_info)
+                raise FAULT_KINDS[(w.fault_kind + w.nputs) % len(FAULT_KINDS)](to_info)
             super().put_file(from_file, to_info, size=size, **kw)
             w.emit({"op": "Put", "x": x, "res": "ok"}, {"op": "put"})
 
